@@ -36,3 +36,23 @@ package ext
 //@ func Clone
 //@   trusted
 //@   ensures result == s
+
+//@ package strconv
+//@ func ParseInt
+//@   trusted
+//@   modifies ghost.errMade at 0
+//@   ensures result1 != nil ==> ghost(errMade, 0) == 1
+//@   ensures result1 == nil ==> ghost(errMade, 0) == old(ghost(errMade, 0))
+
+//@ package text/scanner
+// the scanner reports lexical errors by printing them and counting them in ErrorCount
+//@ func (*Scanner).Init
+//@   trusted
+//@   modifies scanner.Scanner.*
+//@   ensures result == s && s.ErrorCount == 0
+//@ func (*Scanner).Scan
+//@   trusted
+//@   modifies scanner.Scanner.*
+//@   ensures s.ErrorCount >= old(s.ErrorCount)
+//@ func (*Scanner).TokenText
+//@   trusted
